@@ -27,7 +27,7 @@ ASSUMPTIONS = [
     "trivially equal and excluded from distinct_nontrivial (counted as class 'trivial')",
     "matchings of either solver that fail the flux oracle (C02's known finding) are excluded",
 ]
-CASE_TIMEOUT = 900
+CASE_TIMEOUT = 240
 CHUNK = 1
 SETTINGS = [(1e-6, 1e-6), (1e-6, 1e-10), (1e-8, 1e-10)]
 MARGIN = 1e-3
@@ -144,7 +144,7 @@ def run_case(case):
 
     # ------------------------------------------------------------------ matchings
     cb = math.sqrt(eos.ref("L", Tn)["csq"])
-    vws, kinds = HY.velocities(rng, hyd, case["nv"], cb)
+    vws, kinds = HY.velocities(rng, hyd, case["nv"], cb, probe)
     for vw in vws:
         if vw < max(tmpl.vMin, hyd.vMin):
             continue
